@@ -176,7 +176,9 @@ impl<'s, 'a> R<'s, 'a> {
                 let st = self.out.len();
                 for &c in &chars[i..i + l] {
                     if c == '\n' && self.st.line_ends {
-                        match self.src.weighted(&[6, 2, 2]) {
+                        // a literal LF right after a literal CR would read as one CRLF
+                        let after_cr = self.out.ends_with('\r');
+                        match self.src.weighted(&[if after_cr { 0 } else { 2 }, 2, 2]) {
                             0 => self.out.push('\n'),
                             1 => {
                                 self.feat("cr_line_end_in_cdata");
@@ -223,7 +225,8 @@ impl<'s, 'a> R<'s, 'a> {
                 '\r' => self.charref('\r'),
                 '\n' => {
                     if self.st.lexical && self.st.line_ends {
-                        match self.src.weighted(&[6, 2, 2, 1]) {
+                        let after_cr = self.out.ends_with('\r');
+                        match self.src.weighted(&[if after_cr { 0 } else { 3 }, 3, 3, 1]) {
                             0 => self.out.push('\n'),
                             1 => {
                                 self.feat("cr_line_end");
@@ -278,7 +281,8 @@ impl<'s, 'a> R<'s, 'a> {
                     if self.st.lexical && self.st.line_ends && literal_ws_ok && self.src.ratio(1, 4) {
                         // literal white space is normalised to a space by the parser
                         self.feat("literal_ws_in_attribute");
-                        let w = ["\t", "\n", "\r", "\r\n"][self.src.choice(4)];
+                        let after_cr = self.out.ends_with('\r');
+                        let w = ["\t", "\r", "\r\n", "\n"][self.src.choice(if after_cr { 3 } else { 4 })];
                         self.out.push_str(w);
                     } else {
                         self.out.push(' ');
